@@ -1,6 +1,6 @@
 SPECIFICATION Spec
 CONSTANTS
-  Universe = "core"
+  Universe = "coreT"
   MaxLen = 4
 INVARIANT MachineOK
 CHECK_DEADLOCK FALSE
